@@ -129,6 +129,7 @@ def render_region(hdr, dirs):
     start = ct[kw][2]
     end = ct[bclose][3]
     inserts = []  # (offset, text, order)
+    hoisted = []
     replaces = []  # (start, end, text)
     rewrites = []
     loops = rustlex.loop_headers(ct, bopen, bclose)
@@ -172,6 +173,38 @@ def render_region(hdr, dirs):
                 raise LostAnchor("anchor not found in fn %s: %s" % (kv["fn"], m.group(1)))
             off = ct[r[0]][2] if m.group(2) == "before" else ct[r[1]][3]
             inserts.append((off, "\n" + payload + "\n"))
+        elif k == "hoist":
+            # local item (enum/struct/fn) moved to module level: Verus has no "internal item statements".
+            m = re.match(r'"([^"]*)"', d["arg"])
+            r = rustlex.find_seq(ct, rustlex.norm(m.group(1)), bopen, bclose + 1, 1)
+            if not r:
+                raise LostAnchor("hoist anchor not found in fn %s: %s" % (kv["fn"], m.group(1)))
+            j = r[0]
+            while j <= bclose and not (ct[j][0] == "punct" and ct[j][1] in "{;"):
+                if ct[j][0] == "punct" and ct[j][1] in "([":
+                    j = rustlex.match_close(ct, j)
+                j += 1
+            endi = rustlex.match_close(ct, j) if ct[j][1] == "{" else j
+            # swallow attributes directly preceding the item:  # [ ... ]
+            a = r[0]
+            while a - 1 > bopen and ct[a - 1][1] == "]":
+                k2 = a - 1
+                depth = 0
+                while k2 > bopen:
+                    if ct[k2][1] == "]":
+                        depth += 1
+                    elif ct[k2][1] == "[":
+                        depth -= 1
+                        if depth == 0:
+                            break
+                    k2 -= 1
+                if ct[k2 - 1][1] == "#":
+                    a = k2 - 1
+                else:
+                    break
+            hoisted.append(src[ct[r[0]][2]:ct[endi][3]])
+            replaces.append((ct[a][2], ct[endi][3], ""))
+            rewrites.append("%s::%s: local item `%s` hoisted to module level, its attributes dropped" % (kv["file"], kv["fn"], m.group(1)))
         elif k == "rewrite":
             m = re.match(r'"([^"]*)"\s*=>\s*"([^"]*)"(?:\s+nth=(\d+|all))?', d["arg"])
             if not m:
@@ -206,7 +239,7 @@ def render_region(hdr, dirs):
         pos = b
     segs.append((src[pos:end], src.count("\n", 0, pos) + 1))
     info = dict(file=kv["file"], fn=kv["fn"], src_hash=sha_text(src[start:end]),
-                src_line=src.count("\n", 0, start) + 1, rewrites=rewrites)
+                src_line=src.count("\n", 0, start) + 1, rewrites=rewrites, hoisted=hoisted)
     return segs, info
 
 
@@ -236,6 +269,18 @@ def generate(unit):
         else:
             out_segs.append((lines[i] + "\n", None))
             i += 1
+    # hoisted local items are emitted where the template says  //@hoisted-here fn=<name>
+    final = []
+    for t, origin in out_segs:
+        m = re.match(r"\s*//@hoisted-here\s+fn=(\w+)", t)
+        if m and origin is None:
+            for info in infos:
+                if info["fn"] == m.group(1):
+                    for h in info["hoisted"]:
+                        final.append((h + "\n", None))
+        else:
+            final.append((t, origin))
+    out_segs = final
     text = ""
     linemap = {}
     gl = 1
